@@ -233,6 +233,92 @@ theorem C15_api_move_moves {s : State} (h : Inv s) {src : Folder} {f : File} {F 
   · intro a ha
     exact ((mem_dictPop File.id).mp ha).2
 
+/-! ### no item is lost under the API operations -/
+
+theorem folderKeeps_addFileForced (g : Folder) (f : File) : FolderKeeps g (g.addFileForced f) := by
+  unfold Folder.addFileForced
+  split
+  · split
+    · exact (folderKeeps_removeFile g _).trans (folderKeeps_addFile _ f)
+    · exact folderKeeps_addFile g f
+  · exact folderKeeps_addFile g f
+
+theorem keeps_getOrCreateFolder {s : State} (h : Inv s) (G : Name) : Keeps s (getOrCreateFolder s G).1 := by
+  unfold getOrCreateFolder
+  split
+  · exact Keeps.refl s
+  · exact keeps_createFolder h G
+
+/-- Every API operation other than `move_file` keeps every folder uuid and, per folder, every file uuid ("never
+neither"); a forced add moves the replaced namesake to the deleted dictionary, it does not drop it. (`move_file` takes
+the file out of its folder by design: see `C15_api_move_moves`.) -/
+theorem C15_api_no_item_lost {s : State} (h : Inv s) (op : ApiOp) (hm : ∀ F x G, op ≠ .moveFile F x G) :
+    Keeps s (stepApi s op).1 := by
+  cases op with
+  | moveFile F x G => exact absurd rfl (hm F x G)
+  | createFile F x force =>
+    simp only [stepApi, apiCreateFile]
+    have kt : Keeps s (createFileTarget s F).1 := by
+      unfold createFileTarget
+      split
+      · cases getFolder s F with
+        | some g => exact Keeps.refl s
+        | none => exact keeps_createFolder h F
+      · exact Keeps.refl s
+    cases heq : createFileTarget s F with
+    | mk s1 og =>
+      rw [heq] at kt
+      cases og with
+      | none => exact kt
+      | some g =>
+        simp only
+        split
+        · exact kt
+        · refine kt.trans ?_
+          unfold createFileIn
+          cases g.getFile x with
+          | some f =>
+            exact keeps_updFolder g.id (fun g => g.addFile f) rfl rfl (fun g0 _ _ => ⟨rfl, folderKeeps_addFile g0 f⟩)
+          | none =>
+            exact keeps_updFolder g.id (fun g => g.addFile { id := s1.next, name := x }) rfl rfl
+              (fun g0 _ _ => ⟨rfl, folderKeeps_addFile g0 _⟩)
+  | copyFile F x G =>
+    simp only [stepApi, apiCopyFile]
+    cases getFile s F x with
+    | none => exact Keeps.refl s
+    | some f =>
+      refine (keeps_getOrCreateFolder h G).trans ?_
+      exact keeps_updFolder (getOrCreateFolder s G).2.id _ rfl rfl
+        (fun g0 _ _ => ⟨(addFileForced_meta g0 _).1, folderKeeps_addFileForced g0 _⟩)
+  | addFile F x force =>
+    simp only [stepApi, apiAddFile]
+    cases getFolder s F with
+    | none => exact Keeps.refl s
+    | some g =>
+      simp only
+      split
+      · exact Keeps.refl s
+      · exact keeps_updFolder g.id _ rfl rfl (fun g0 _ _ => ⟨(addFileForced_meta g0 _).1, folderKeeps_addFileForced g0 _⟩)
+  | deleteFileById i j =>
+    simp only [stepApi, apiDeleteFileById]
+    split
+    · exact Keeps.refl s
+    · split
+      · exact Keeps.refl s
+      · exact keeps_step h (.deleteFile _ _)
+  | deleteFolderById i =>
+    simp only [stepApi, apiDeleteFolderById]
+    split
+    · exact Keeps.refl s
+    · exact keeps_step h (.deleteFolder _)
+  | removeFileById i j =>
+    simp only [stepApi, apiRemoveFileById]
+    split
+    · exact Keeps.refl s
+    · split
+      · exact Keeps.refl s
+      · exact keeps_updFolder _ _ rfl rfl (fun g0 _ _ => ⟨removeFile_id g0 _, folderKeeps_removeFile g0 _⟩)
+
 /-! ### counters and `num_access` -/
 
 /-- `pre_timestep` starts the tick with `num_access = 0` on every live file of every live folder — whatever requests
